@@ -109,6 +109,9 @@ def cases(rng, tier):
         out.append({"t": "batch", "v": v, "oidc": oidc, "jwt": jwt, "seed": rng.getrandbits(40), "n": rng.randint(15, 40)})
     for _ in range(max(2, n // 4)):
         out.append({"t": "client", "seed": rng.getrandbits(40), "n": rng.randint(10, 30)})
+    # one long-lived relying party against one long-lived provider: whole flows (all response types / modes / request transports, PKCE)
+    for _ in range(max(2, n // 4)):
+        out.append({"t": "tandem", "seed": rng.getrandbits(40), "n": rng.randint(6, 14), "am": rng.choice(["client_secret_basic", "private_key_jwt", "client_secret_jwt"])})
     return out
 
 
@@ -122,9 +125,61 @@ def _probe_outcomes(R):
     return out
 
 
+class _S:
+    def __init__(self, s):
+        self.s = s
+
+
+def impl_tandem(c):
+    import c12
+    import tandem
+    rng = random.Random(c["seed"])
+    cell = {"rt": "code", "rm": None, "am": c["am"], "atf": "jwt", "rtf": "opaque", "ialg": "RS256", "ienc": None, "ui": "json", "req": "par", "pkce": True}
+    c12._pairs.clear()
+    pair = c12.pair_for(dict(cell, rt="code id_token"))       # registered for the hybrid type; code and id_token flows use req_args
+    if pair[0] == "setup-failed":
+        return {"nops": 0, "changes": [], "aliases": [], "probe_equal": True, "probe_diff": [], "hist": [], "setup": pair[1]}
+    server, rp, log, files = pair
+    R = _S(server)
+
+    def both():
+        d = {"op:" + p: heapsnap.canon(v) for p, v in static_roots(R)}
+        d.update({"rp:" + p: heapsnap.canon(v) for p, v in client_static_roots(rp) if not p.startswith("idpyoidc.")})
+        return d
+    base = both()
+    changes, seen = [], set()
+    done = 0
+    for i in range(c["n"]):
+        STATS["requests"] += 1
+        args = {"scope": ["openid"] + rng.sample(["profile", "email", "offline_access"], rng.randint(0, 3)), "response_type": "code id_token"}
+        rm = rng.choice([None, None, "form_post", "fragment"])
+        if rm:
+            args["response_mode"] = rm
+        if rng.random() < 0.4:
+            args["claims"] = {"userinfo": {"nickname": None}}
+        try:
+            url = rp.init_authorization(req_args=args)
+            params, how = tandem.browser(server, url, log)
+            if "__error__" not in params and "error" not in params:
+                if rng.random() < 0.15:
+                    params["state"] = "unknown-state"          # error path on the RP side
+                rp.finalize(params)
+                done += 1
+        except Exception:
+            pass
+        now = both()
+        for p in now:
+            if now[p] != base.get(p) and p not in seen:
+                seen.add(p)
+                changes.append({"step": i, "op": "flow", "root": p, "before": json.dumps(base.get(p))[:300], "after": json.dumps(now[p])[:300]})
+    return {"nops": c["n"], "changes": changes, "aliases": [], "probe_equal": True, "probe_diff": [], "hist": [], "completed": done}
+
+
 def impl(c):
     if c["t"] == "client":
         return impl_client(c)
+    if c["t"] == "tandem":
+        return impl_tandem(c)
     rng = random.Random(c["seed"])
     R = make_runner(c["v"], c["oidc"], c["jwt"])
     base = snap(R)
@@ -229,7 +284,7 @@ def impl_client(c):
 
 
 def model_lines(c, obs):
-    if c["t"] == "client":
+    if c["t"] in ("client", "tandem"):
         return ["heap\tsettings"]
     cfg = CFGV[c["v"]]
     return ["\t".join(["heap", "usage", "1" if cfg["c1_rules"] else "0", "1" if cfg["c1_rules"] else "0"]), "heap\tsettings"]
@@ -245,6 +300,8 @@ def compare(c, obs, outs):
         if outs[0] != got:
             d.append(f"client record token_usage_rules: model={outs[0]} implementation={got}")
         settings = [r for r in roots if r.startswith("endpoint.token_revocation.") or r.startswith("endpoint.userinfo.config")]
+    elif c["t"] == "tandem":
+        settings = [r for r in roots if ".c_param" in r or r.startswith("op:endpoint.token_revocation.") or r.startswith("op:endpoint.userinfo.config")]
     else:
         settings = [r for r in roots if ".c_param" in r]
     got = "changed" if settings else "unchanged"
